@@ -325,16 +325,22 @@ end C06
 
 -- ===================================================================== C05
 namespace C05
-/-- Wait/Result/Err return only after the job finished or was cancelled/purged/rejected; once it
-    has, they do return (checked at quiescence). -/
+/- Wait/Result/Err return only after the job finished or was cancelled/purged/rejected; once it
+   has, they do return (checked at quiescence). -/
+/-- a Close() that has returned an error (ErrJobProcessing) has cancelled nothing: only a Close that
+    returned nil, or one that is still in progress, can be the reason for a handle to complete early -/
+def cancelledOrClosing (b : Book) (k : Nat) : Bool :=
+  let j := b.job k
+  j.closedNil || j.maybePurged || j.maybeRejected || b.anyOpen (fun c => c == .jclose k)
+
 def onEvent (_ : Unit) (b : Book) (o : Obs) (_ : Book) : Unit × List Viol :=
   match o with
   | .ret _ _ _ (.jwait k _) =>
     let j := b.job k
-    ((), if j.exited == 0 && !mayBeGone j then [s!"Wait on job {k} returned before its worker function returned"] else [])
+    ((), if j.exited == 0 && !cancelledOrClosing b k then [s!"Wait on job {k} returned before its worker function returned"] else [])
   | .ret _ _ _ (.jresult k _ _) =>
     let j := b.job k
-    ((), if j.exited == 0 && !mayBeGone j then [s!"Result/Err on job {k} returned before its worker function returned"] else [])
+    ((), if j.exited == 0 && !cancelledOrClosing b k then [s!"Result/Err on job {k} returned before its worker function returned (no Close() on it has succeeded or is in progress)"] else [])
   | _ => ((), [])
 
 def atEnd (p : Params) (b : Book) (fin : Option Final) (e : EndInfo) : List Viol :=
